@@ -49,6 +49,8 @@ fn pattern(seed: u64, bank: usize, len: usize) -> Vec<u8> {
 pub fn check(c: &Case, rec: &mut Rec) -> Result<(), String> {
     let mut opts = EmuOpts::new(c.machine);
     opts.default_rom = c.custom_rom.is_none();
+    // a joystick interface (read-only device) is plugged into half of the machines
+    opts.kempston = c.ram_seed % 2 == 0;
     let mut e = mk_emu(&opts);
     let roms = match c.custom_rom {
         None => mach::rom_images(c.machine),
